@@ -1636,3 +1636,54 @@ def replay(rep):  # noqa: F811
         print('replay: %s' % ('violation reproduced on the real code' if bad else 'not reproduced'))
         return 1 if bad else 0
     return _rp20(rep)
+
+
+# ---- roundtrip (C11): print / re-parse of every producible tree up to depth 3 (bounded stand-in / replay) ----
+ROUNDTRIP_BIN = os.path.join(WORK, 'replay-core-target', 'release', 'vx-replay-roundtrip')
+
+
+def _roundtrip_witness():
+    if build_core() != 0:
+        return None
+    rc, so, se, dt = run([ROUNDTRIP_BIN, '--deep'], timeout=300)
+    if rc == 0 and 'ROUNDTRIP ok' in so:
+        return None
+    line = ([l for l in so.splitlines() if l.startswith('FAIL')] or [one_line(so + se, 300)])[0]
+    import re as _re4
+    m = _re4.search(r'input `(.*?)` printed `(.*?)` reply `(.*?)` reparsed `(.*?)`', line)
+    inp = m.group(1) if m else line
+    return {'replayer': 'roundtrip', 'input': {'query': inp, 'expected': 'the printed text parses back to the same tree'}, 'output': line,
+            'why': 'the expression `%s` does not come back from its printed form: %s' % (inp, one_line(line, 300)), 'cmd': '%s --deep' % ROUNDTRIP_BIN}
+
+
+_sf21 = search_family
+
+
+def search_family(fam, prop):  # noqa: F811
+    if fam == 'roundtrip':
+        return _roundtrip_witness()
+    return _sf21(fam, prop)
+
+
+_fw22 = find_witness
+
+
+def find_witness(o, rep):  # noqa: F811
+    if o.get('unit') == 'display' or rep.get('property') == 'C11':
+        w = _roundtrip_witness()
+        if w:
+            return w
+    return _fw22(o, rep)
+
+
+_rp22 = replay
+
+
+def replay(rep):  # noqa: F811
+    w = rep.get('replay') or {}
+    if w.get('replayer') == 'roundtrip':
+        w2 = _roundtrip_witness()
+        print(w2['output'] if w2 else 'ROUNDTRIP ok')
+        print('replay: %s' % ('violation reproduced on the real code' if w2 else 'not reproduced'))
+        return 1 if w2 else 0
+    return _rp22(rep)
